@@ -29,6 +29,22 @@ def run(tier, seed):
         "send / send_data / callback -> Listener._recv_one are PROVED to return the original message for every message",
         "cloudpickle / orjson / pydantic round-trip plain data (gateway JSON, JobInstance): assumed, exercised only by the bounded stand-in",
     ]
+    # premise of the assumed pickle law, scanned on the source of every run: the law is only claimed for classes that leave pickling to the default protocol
+    import ast, os
+    custom = []
+    for rel in ("cascade/executor/msg.py", "cascade/low/core.py", "cascade/controller/report.py"):
+        path = os.path.join(common.REPO_SRC, rel)
+        for node in ast.walk(ast.parse(open(path).read())):
+            if isinstance(node, ast.ClassDef):
+                for b in node.body:
+                    if isinstance(b, (ast.FunctionDef, ast.Assign)) and any(n in ("__reduce__", "__reduce_ex__", "__getstate__", "__setstate__", "__getnewargs__", "__getnewargs_ex__")
+                                                                         for n in ([b.name] if isinstance(b, ast.FunctionDef) else [getattr(t, "id", "") for t in b.targets])):
+                        custom.append(f"{rel}:{node.name}")
+    out.extra["pickle_law_premise"] = {"scanned": "class bodies of executor/msg.py, low/core.py, controller/report.py for __reduce__/__reduce_ex__/__getstate__/__setstate__/__getnewargs__",
+                                       "classes_customising_pickling": custom}
+    if custom:
+        out.assumptions.append(f"PREMISE OF THE ASSUMED PICKLE LAW NOT MET on this tree: {custom} customise their own pickling - the serde/framing proofs say nothing about them; "
+                               "only the bounded stand-in (real pickle, enumerated instances) speaks for these classes")
     from checks import c17_bounded
     c17_bounded.run(out, tier, seed)
     return out.finish("proof", rule="one proof harness per message class found in cascade/shm/api.py (read from the source on every run); an obligation is one "
